@@ -241,18 +241,31 @@ func ruleCondSnapshot(c *Ctx, r *R) {
 	okOrder, any := true, false
 	for in, st := range before {
 		ret, ok := in.(*ssa.Return)
-		if !ok || len(ret.Results) != 1 || !isNilConst(ret.Results[0]) {
+		if !ok || len(ret.Results) != 1 {
 			continue
 		}
 		if _, isErr := ret.Results[0].Type().Underlying().(*types.Interface); !isErr {
 			continue
 		}
-		any = true
-		st.each(func(q int) {
-			if q&(cSNAP|cUNL|cWOKE) != cSNAP|cUNL|cWOKE {
-				okOrder = false
+		states := []StateSet{}
+		if isNilConst(ret.Results[0]) {
+			states = append(states, st)
+		} else if phi, ok := ret.Results[0].(*ssa.Phi); ok && phi.Block() == ret.Block() {
+			for i, e := range phi.Edges { // single exit returning a carried error variable: the nil ways in
+				pb := ret.Block().Preds[i]
+				if isNilConst(e) && len(pb.Instrs) > 0 {
+					states = append(states, before[pb.Instrs[len(pb.Instrs)-1]])
+				}
 			}
-		})
+		}
+		for _, s2 := range states {
+			any = true
+			s2.each(func(q int) {
+				if q&(cSNAP|cUNL|cWOKE) != cSNAP|cUNL|cWOKE {
+					okOrder = false
+				}
+			})
+		}
 	}
 	r.ok(any && okOrder, "xsync.ContextCond.Wait|unlock-before-wait", fn.Pos(), "on every path that reports a wake-up Wait must have read the channel under the mutex, then released c.L, and only then received: reading after the release misses a Broadcast in between; not releasing deadlocks the signaller")
 }
@@ -266,6 +279,7 @@ func ruleCondLockState(c *Ctx, r *R) {
 	type retState struct {
 		ret *ssa.Return
 		st  StateSet
+		res ssa.Value
 	}
 	var rets []retState
 	for in, st := range before {
@@ -276,18 +290,30 @@ func ruleCondLockState(c *Ctx, r *R) {
 		if !types.Identical(ret.Results[0].Type(), fn.Signature.Results().At(0).Type()) {
 			continue
 		}
+		// a single exit that returns a carried variable (`var err error; … err = ctx.Err() …; return err`): one virtual
+		// return per way into the exit block, with the value and the state of that way
+		if phi, ok := ret.Results[0].(*ssa.Phi); ok && phi.Block() == ret.Block() {
+			for i, e := range phi.Edges {
+				pb := ret.Block().Preds[i]
+				if len(pb.Instrs) == 0 {
+					continue
+				}
+				rets = append(rets, retState{ret, before[pb.Instrs[len(pb.Instrs)-1]], e})
+			}
+			continue
+		}
 		// a return that merely hands on a helper's result is decided at the helper's own returns
 		if call, ok := ret.Results[0].(*ssa.Call); ok {
 			if cal := staticCallee(&call.Call); cal != nil && cal.Blocks != nil && rootFn(cal).Pkg == fn.Pkg {
 				continue
 			}
 		}
-		rets = append(rets, retState{ret, st})
+		rets = append(rets, retState{ret, st, ret.Results[0]})
 	}
-	sort.Slice(rets, func(i, j int) bool { return rets[i].ret.Pos() < rets[j].ret.Pos() })
+	sort.SliceStable(rets, func(i, j int) bool { return rets[i].ret.Pos() < rets[j].ret.Pos() })
 	sawNil, sawErr := false, false
 	for n, rs := range rets {
-		res := rs.ret.Results[0]
+		res := rs.res
 		key := "xsync.ContextCond.Wait|return#" + itoa(n+1)
 		if isNilConst(res) {
 			sawNil = true
